@@ -22,11 +22,12 @@ def contracts(tier):
 
 
 def extra_obligations(tier):
-    return [solve.custom_result('assemble:kronecker-structure', assemble_fast.F, 'bsp_stiffness_3d', assemble_fast.kronecker_structure),
+    _pu = solve.custom_result('paramuse:C09', 'pyiga/assemble.py', 'all functions', __import__('pyvc.paramuse', fromlist=['x']).obligations(['pyiga/assemble.py'], 'paramuse'))
+    _r = [solve.custom_result('assemble:kronecker-structure', assemble_fast.F, 'bsp_stiffness_3d', assemble_fast.kronecker_structure),
             solve.custom_result('fast_assemble_cy:wrappers', 'pyiga/fast_assemble_cy.pyx', 'fast_assemble_2d_wrapper / fast_assemble_3d_wrapper', assemble_fast.fast_wrapper_obligations),
             solve.custom_result('assemble:measure-factor', 'pyiga/assemble.py', 'inner_products / integrate', assemble_fast.measure_factor_obligations),
             solve.custom_result('assemble:1d-wrappers', 'pyiga/assemble.py', 'bsp_mass_1d / bsp_stiffness_1d / bsp_mass_1d_asym / bsp_stiffness_1d_asym', assemble_fast.wrapper_forwarding_obligations)]
-
+    return list(_r) + [_pu]
 
 MANIFEST = {
     'category': 'proof',
